@@ -107,4 +107,5 @@ VARIANTS = [
     V("affinity-matrix-allocated-transposed(C07)", "src/soundevent/evaluation/match.py", "    cost_matrix = np.zeros(shape=(len(source), len(target)))", "    cost_matrix = np.zeros(shape=(len(target), len(source)))", "C07/R07.1"),
     # G.12
     V("no-predictions-rejected(G.12)", "src/soundevent/evaluation/tasks/sound_event_detection.py", "    ) = _evaluate_clips(clip_predictions, clip_annotations, encoder)", "    ) = _evaluate_clips(clip_predictions, clip_annotations, encoder)\n\n    if not clip_predictions:\n        raise ValueError(\"Nothing to evaluate.\")", "G.12"),
+    V("vocabulary-reversed-and-cut", "src/soundevent/evaluation/tasks/sound_event_detection.py", "    encoder = create_tag_encoder(tags)", "    encoder = create_tag_encoder(tags[:-1])", "R08"),
 ]
